@@ -7,10 +7,10 @@ open Fastor
 
 private def parseNats (s : String) : List Nat := (s.splitOn ",").filterMap String.toNat?
 
-def showNats (l : List Nat) : String := ",".intercalate (l.map toString)
+private def showNats (l : List Nat) : String := ",".intercalate (l.map toString)
 
 /-- run a list of stores on a buffer of `n` cells initialised with `init`; returns (buffer, out-of-range stores, WSEQ) -/
-def runStores14 (n : Nat) (init : Nat → Fp) (ws : List (Nat × Fp)) : Array Fp × Nat × UInt64 := Id.run do
+private def runStores14 (n : Nat) (init : Nat → Fp) (ws : List (Nat × Fp)) : Array Fp × Nat × UInt64 := Id.run do
   let mut mem : Array Fp := (Array.range n).map init
   let mut oob := 0
   let mut wseq : UInt64 := 0
@@ -19,7 +19,7 @@ def runStores14 (n : Nat) (init : Nat → Fp) (ws : List (Nat × Fp)) : Array Fp
     if w.1 < mem.size then mem := mem.set! w.1 w.2 else oob := oob + 1
   return (mem, oob, wseq)
 
-def digest14 (mem : Array Fp) : UInt64 := mem.foldl (fun h x => Fp.hash h x) (0 : UInt64)
+private def digest14 (mem : Array Fp) : UInt64 := mem.foldl (fun h x => Fp.hash h x) (0 : UInt64)
 
 def runPermute (kv : List (String × String)) : String := Id.run do
   let some std := getN kv "std" | return "bad-op"
@@ -60,6 +60,11 @@ def runPmeta (kv : List (String × String)) : String := Id.run do
   if std ≥ 17 then
     return base ++ s!" REV={showNats (Permute.mappedIndex p)}"
   return base
+
+def runPmeta2 (kv : List (String × String)) : String := Id.run do
+  let some rs := getS kv "R" | return "bad-op"
+  let some os := getS kv "O" | return "bad-op"
+  return s!"REV={showNats (Permute.mappedIndex2 (parseNats rs) (parseNats os))}"
 
 def runTranspose (kv : List (String × String)) : String := Id.run do
   let some cfgName := getS kv "cfg" | return "bad-op"
